@@ -1,7 +1,11 @@
 use crate::rete::stream_join_node::{JoinedEvent, StreamJoinNode};
 use crate::streaming::event::StreamEvent;
 use std::collections::HashMap;
-use std::sync::{Arc, Mutex};
+use std::sync::Arc;
+#[cfg(rre_verif_shuttle)]
+use shuttle::sync::Mutex;
+#[cfg(not(rre_verif_shuttle))]
+use std::sync::Mutex;
 
 /// Manages multiple stream joins and coordinates event routing
 pub struct StreamJoinManager {
